@@ -174,7 +174,12 @@ def scen(w, D=2, scripts=1, full_modes=0):
         pu.fire(plugin, "PRINT_STARTED")
         pipe.ep = False
         pipe.V.__init__(w, pipe.V.g90e, "V")
+        n0 = len(pipe.steps)
         pipe.prologue()
+        # the abandoned episode must not surface in the new print: its first commands are forwarded verbatim
+        for rec in pipe.steps[n0:]:
+            w.check(rec.emitted == [rec.text], "nothing-leaks-into-later-print",
+                    "after PrintStarted %r -> %r" % (rec.text, rec.emitted))
     desc = "modes=%s seen=%s ending=%s -> %r" % (modes, [t for _, t, _ in seen], ending, out)
     if out is not None:
         flush, script, resync = split_output(out, len(exp), exit_lines)
